@@ -49,7 +49,7 @@ var pureExternal = []string{
 	"base64.", "(*base64.Encoding).EncodeToString", "(*base64.Encoding).DecodeString", "(*base64.Encoding).EncodedLen",
 	"context.Background", "context.TODO", "(reflect.", "reflect.", "runtime.", "os.Getenv", "sort.SearchStrings",
 	"(protoreflect.", "(*url.URL).String", "(*url.URL).", "(http.Header).Get", "(http.Header).Values", "(http.Header).Clone",
-	"error.Error", "fmt.Stringer.String",
+	"error.Error", "fmt.Stringer.String", "(*url.Error).", "(*sync.Mutex).", "(*sync.RWMutex).",
 }
 
 func isPureExternal(name string) bool {
@@ -294,6 +294,28 @@ func (fc *FnCtx) applyContract(cs *spec.FuncSpec, name string, args []Val, resT 
 			vars[rn] = resVals[i]
 		}
 	}
+	// a result the callee allocated is a new object: all its fields and ghost
+	// fields are whatever the callee made them (constrained by the ensures below)
+	for _, rv := range resVals {
+		if rv.T == nil {
+			continue
+		}
+		obj := rv.T
+		if _, isFresh := freshRefKey(rv.T); !isFresh {
+			l, isCond := fc.condFresh[rv.T.Op]
+			if !isCond {
+				continue
+			}
+			obj = l
+		}
+		for _, k := range smt.SortedKeys(fc.heapSorts) {
+			_, kvs, ok := smt.ArrParts(fc.heapSorts[k])
+			if !ok {
+				continue
+			}
+			fc.setHeapQuiet(st, k, smt.Store(fc.getHeap(st, k, kvs), obj, fc.S.Fresh("new_"+k, kvs)))
+		}
+	}
 	// havoc assigns
 	for _, a := range cs.Assigns {
 		ec := &evalCtx{fc: fc, vars: vars, cur: pre, old: pre}
@@ -302,6 +324,17 @@ func (fc *FnCtx) applyContract(cs *spec.FuncSpec, name string, args []Val, resT 
 			for i, k := range fkeys {
 				fc.getHeap(st, k, fsorts[i])
 				fc.writeKey(st, k, fref, fc.S.Fresh("hv_"+k, fsorts[i]))
+			}
+			continue
+		}
+		if id, isID := a.(*spec.Ident); isID && id.Name == "callerfresh" {
+			// the callee may write to (only) the objects this function allocated itself
+			for _, k := range smt.SortedKeys(fc.heapSorts) {
+				hs := fc.heapSorts[k]
+				_, kvs, _ := smt.ArrParts(hs)
+				for _, r := range fc.freshRefs {
+					fc.setHeap(st, k, smt.Store(fc.getHeap(st, k, kvs), r, fc.S.Fresh("hvf_"+k, kvs)))
+				}
 			}
 			continue
 		}
@@ -365,7 +398,30 @@ func (fc *FnCtx) resultVal(cs *spec.FuncSpec, i int, ty types.Type, name string)
 	if len(hint) > 28 {
 		hint = hint[:28]
 	}
+	if i < len(cs.Results) && (kindOf(ty) == KRef || kindOf(ty) == KPtr) {
+		rn := cs.Results[i]
+		for _, e := range cs.Ensures {
+			if mentionsFreshOf(e.E, rn) {
+				// conditionally fresh: the result is a symbol, fresh(res) means "is the new object L"
+				t := fc.S.Fresh(hint, smt.Int)
+				fc.condFresh[t.Op] = fc.newRef()
+				return fc.fromTerm(t, ty)
+			}
+		}
+	}
 	return fc.freshVal(hint, ty)
+}
+
+func mentionsFreshOf(e spec.Expr, name string) bool {
+	found := false
+	walk(e, func(x spec.Expr) {
+		if c, ok := x.(*spec.Call); ok && c.Fun == "fresh" && len(c.Args) == 1 {
+			if id, ok := c.Args[0].(*spec.Ident); ok && id.Name == name {
+				found = true
+			}
+		}
+	})
+	return found
 }
 
 func isFreshOf(e spec.Expr, name string) bool {
